@@ -13,6 +13,9 @@ V = os.path.dirname(os.path.dirname(os.path.abspath(__file__)))
 CHECKS_ONLY = "--checks-only" in sys.argv
 if CHECKS_ONLY:
     sys.argv.remove("--checks-only")
+MERGE = "--merge" in sys.argv   # keep the stored results of checks that are not re-run
+if MERGE:
+    sys.argv.remove("--merge")
 pid, src, name = sys.argv[1], os.path.abspath(sys.argv[2]), sys.argv[3]
 checks = sys.argv[4:] or [pid]
 wt = "/tmp/wt_seed_%s" % name
@@ -88,7 +91,7 @@ try:
 except StopIteration:
     pass
 try:
-    meta["checks"] = {}
+    meta["checks"] = dict(meta.get("checks", {})) if MERGE else {}
     meta["checked_at_repo_head"] = subprocess.run("git -C /repo rev-parse --short HEAD", shell=True, stdout=subprocess.PIPE, text=True).stdout.strip()
     for c in checks:
         t0 = time.time()
